@@ -23,8 +23,8 @@ SIMPLE_POPS = ['OIlocSlice', 'OIlocList', 'OLocMask', 'OLocLabels', 'OBoolMask',
 # --------------------------------------------------------------------------
 def shape_at(kind, t):
     x, y = 4 * t, 4 * t
-    ring = [x, y, x + 1, y, x + 1, y + 1, x, y]
-    return {'point': [x, y], 'multipoint': [x, y, x + 1, y + 1], 'line': [x, y, x + 1, y + 1],
+    ring = [x, y, x + 1, y, x + 1, y + 1, x, y + 1, x, y]
+    return {'point': [x + 0.5, y + 0.5], 'multipoint': [x + 0.5, y + 0.5, x + 0.75, y + 0.25], 'line': [x, y, x + 1, y + 1],
             'ring': ring, 'multiline': [[x, y, x + 1, y + 1]], 'polygon': [ring],
             'multipolygon': [[ring]]}[kind]
 
@@ -167,8 +167,10 @@ def pop_coq(op, other_recs=None):
         return C.Raw(k)
     if k in ('OSubset', 'ODrop'):
         return C.Rec(k, list(op['names']))
-    if k in ('OAssign', 'OResetIndex', 'OMerge'):
+    if k in ('OAssign', 'OResetIndex'):
         return C.Rec(k, op['name'])
+    if k == 'OMerge':
+        return C.Rec(k, op['name'], bool(op['ident']))
     if k == 'ORename':
         return C.Rec(k, op['old'], op['new'])
     if k == 'OSetGeometry':
@@ -250,7 +252,13 @@ def apply_pop(df, op):
     if k == 'OResetIndex':
         return df.rename_axis(op['name']).reset_index()
     if k == 'OMerge':
-        other = pd.DataFrame({'v': np.arange(NROWS), op['name']: np.arange(NROWS) * 2})
+        if op['ident']:
+            # every row of df matches exactly one row of the other frame
+            keys = np.arange(NROWS)
+        else:
+            # the first row of df matches twice, the others not at all
+            keys = np.array([df['v'].iloc[0]] * 2)
+        other = pd.DataFrame({'v': keys, op['name']: np.arange(len(keys)) * 2})
         return df.merge(other, on='v')
     if k == 'OConcat':
         before = [derive_other(df, r) for r in op['before']]
@@ -351,7 +359,8 @@ def apply_dop(ddf, op):
     if k == 'DPersist':
         return ddf.persist(scheduler='synchronous')
     if k == 'DPickle':
-        return pickle.loads(pickle.dumps(ddf))
+        import cloudpickle
+        return pickle.loads(cloudpickle.dumps(ddf))
     if k == 'DPartitions':
         return ddf.partitions[list(op['sel'])]
     if k == 'DMapIdentity':
